@@ -14,6 +14,9 @@ def aplEval (tag : Nat) : Except String (List Cell → ApplyRes) :=
       | _ => .slice xs)
   | 11 => pure (fun xs => .slice (xs ++ [.int .int 7]))
   | 12 => pure (fun xs => .slice xs.dropLast)
+  | 15 => pure (fun xs => match xs.headD .nil with
+      | .nil => .nilRes
+      | v => .slice (xs ++ [v, v]))   -- longer than the row: the surplus is ignored; nil: the row stays nil
   | 14 => pure (fun xs => .slice (xs.filter (fun c => !c.isNil)))   -- the non-nil cells: lengths differ between columns
   -- a row validator: an `error` VALUE for rows starting with a negative int (a single value like any other), else the row
   | 13 => pure (fun xs => match xs.headD .nil with
